@@ -329,116 +329,13 @@ func (vm *VM) equals(a, b *Item) bool {
 		limit := MaxComparableSize
 		return vm.bytesEqualsLimited(a, b, &limit)
 	case TStruct:
-		return vm.structEquals(a, b)
+		return vm.structEqualsReadings(a, b)
 	}
 	return plainEquals(a, b)
 }
 
-// structEquals is Struct.Equals(other, limits): structs are compared by value,
-// pair by pair, nested structs recursively; a nested struct that is the very
-// same object on both sides is not descended into. The comparison may look at
-// no more than MaxStackSize pairs (the two structs themselves are the first
-// pair) and at no more than MaxComparableSize units (a ByteString costs its
-// length - the longer of the two - but at least 1, every other pair costs 1);
-// exceeding a budget faults.
-//
-// The model states this order-free: it walks ALL pairs (not stopping at a
-// mismatch) and decides from the totals. Where the outcome would depend on
-// the order in which pairs are visited (a mismatch exists AND a budget could
-// be exhausted before it is found), on the exact off-by-one of the pair
-// budget, or on how the size budget is charged (outermost pair, nested
-// structs), the run is flagged undetermined.
-func (vm *VM) structEquals(a, b *Item) bool {
-	if b.T != TStruct {
-		return false
-	}
-	const cap = 3 * MaxStackSize
-	allEqual := true
-	pairs, cost, maxLevel := 0, 0, 0
-	type pr struct {
-		x, y  *Item
-		depth int
-	}
-	work := []pr{{a, b, 0}}
-	for len(work) > 0 {
-		p := work[len(work)-1]
-		work = work[:len(work)-1]
-		pairs++
-		if pairs > cap {
-			vm.undet("struct-compare-huge")
-			return false
-		}
-		x, y := p.x, p.y
-		if x.T == TByteString {
-			vm.touch(x)
-			c := max(1, len(x.Data))
-			if y.T == TByteString {
-				vm.touch(y)
-				c = max(c, len(y.Data))
-				if x != y && string(x.Data) != string(y.Data) {
-					allEqual = false
-				}
-			} else {
-				allEqual = false
-			}
-			cost += c
-			continue
-		}
-		cost++
-		if x.T == TStruct {
-			if x == y {
-				continue
-			}
-			if y.T != TStruct || len(x.Elems) != len(y.Elems) {
-				allEqual = false
-				continue
-			}
-			level := 0 // cost of the direct elements of this struct pair
-			for i := range x.Elems {
-				work = append(work, pr{x.Elems[i], y.Elems[i], p.depth + 1})
-				c := 1
-				if x.Elems[i].T == TByteString {
-					c = max(c, len(x.Elems[i].Data))
-					if y.Elems[i].T == TByteString {
-						c = max(c, len(y.Elems[i].Data))
-					}
-				}
-				level += c
-			}
-			maxLevel = max(maxLevel, level)
-			continue
-		}
-		if !plainEquals(x, y) {
-			allEqual = false
-		}
-	}
-	if !allEqual {
-		// false in every visiting order iff no order can exhaust a budget
-		if pairs >= MaxStackSize || cost > MaxComparableSize {
-			vm.undet("struct-compare-mismatch-near-limit")
-		}
-		return false
-	}
-	switch {
-	case pairs == MaxStackSize:
-		// exactly at the pair budget (top pair + 2047 elements)
-		vm.undet("struct-compare-count-limit")
-	case pairs > MaxStackSize:
-		fault("EQUAL: too many struct items to compare")
-	}
-	if cost > MaxComparableSize {
-		// `cost` charges every pair including the two structs themselves
-		// against ONE budget. Whether the outermost pair is charged and
-		// whether nested structs draw from the same budget is not stated by
-		// any text we can cite: the fault is claimed only when already the
-		// direct elements of one struct exceed the budget.
-		if maxLevel <= MaxComparableSize {
-			vm.undet("struct-compare-size-budget-reading")
-		}
-		fault("EQUAL: operand exceeds the maximum comparable size")
-	}
-	return true
-}
+// Struct.Equals(other, limits) - the pair and size budgets shared by all the
+// fields of a struct comparison - is in ext_budget.go (structEqualsReadings).
 
 // cloneStruct is Struct.Clone(limits) used by APPEND/SETITEM/VALUES: a deep
 // copy of the struct and of the structs nested in it; all other elements
